@@ -77,6 +77,9 @@ func checkC05(c *Ctx) {
 	c05Settable(c)
 	c05Consumer(c)
 	c05Pending(c)
+	// delivered "once, in sending order": concurrent sends to one session must not interleave on its stream
+	streamWriteLocked(c, "R-stream-locked", true)
+	c.R.Min("R-stream-locked", 2)
 }
 
 // ---------------------------------------------------------------- R-route
